@@ -436,7 +436,6 @@ PROPS = {
                   lambda prog, tier: errlost.run(prog, scope_funcs=set(prog.reachable([prog.require_fn(r).key for r in
                                                                                      ("mpq_QSread_prob", "mpq_QSget_prob", "mpq_QSread_basis", "mpq_QSread_and_load_basis")])), floor=60),
                   lambda prog, tier: allockind.run(prog),
-                  lambda prog, tier: intdiv.run(prog),
                   lambda prog, tier: fmt.run(prog, scope=lambda f, _r=set(prog.reachable([prog.require_fn(r).key for r in
                                                                                           ("mpq_QSread_prob", "mpq_QSget_prob", "mpq_QSread_basis", "mpq_QSread_and_load_basis")])): f.key in _r, floor=200)],
         "technique": "census and classification of buffer-writing calls in the reader call-graph closures (destination array sizes from the "
@@ -524,6 +523,7 @@ PROPS = {
                   lambda prog, tier: fmt.run(prog),
                   lambda prog, tier: floatidx.run(prog),
                   lambda prog, tier: allockind.run(prog),
+                  lambda prog, tier: intdiv.run(prog),
                   lambda prog, tier: appendinit.run(prog),
                   lambda prog, tier: counter.run(prog),
                   lambda prog, tier: useb4check.run(prog),
